@@ -129,7 +129,11 @@ class Analysis:
                 # a named field of some structure: an opaque but stable symbol (e.g. `blob.location.length`)
                 names = [e[2] or str(e[1]) for e in fields]
                 return Lin.sym("field:" + ".".join(names))
-            return st.ival.get(self.base(st, l))
+            v = st.ival.get(self.base(st, l))
+            if v is None and fields and all(e[2] in (None, "0", "1", "2", "3") for e in fields) and not any(isinstance(e, list) and e[0] == "d" for e in p[1:]):
+                # component of an opaque tuple value (e.g. the pair returned by a helper): a stable symbol
+                return Lin.sym(f"tuple{self.base(st, l)}." + ".".join(str(e[1]) for e in fields))
+            return v
         return None
 
     def len_of(self, st, op):
@@ -251,7 +255,11 @@ class Analysis:
             self.assign(st, dest, bl=self.range_len(self.len_of(st, args[0]), r))
             return
         if LEN.search(c):
-            self.assign(st, dest, iv=self.len_of(st, args[0]))
+            v = self.len_of(st, args[0])
+            if v is None:
+                v = Lin.sym(f"len@{bb}")
+                self.call_syms[bb] = f"len@{bb}"
+            self.assign(st, dest, iv=v)
             return
         if TRANSPARENT.search(c) or TRANSPARENT.search(cd):
             self.assign(st, dest, self.int_of(st, args[0]) if args else None, self.len_of(st, args[0]) if args else None)
